@@ -8,7 +8,7 @@ from ..cfg import cfg_of, node_calls, reach
 from ..defuse import def_value, defs_of, reaching_defs
 from ..esp import NEW, OLD, UNKNOWN, contains, run_method, val_str, valuations
 from ..model import Func, Repo, body_nodes, norm, parent, short
-from .C18 import apply_exh, ctx_restore
+from .C18 import apply_exh, apply_routing, ctx_restore
 from .common import dispatch_ops, generic_class, op_table, table_stats, trace_str
 from .emit import change_classes
 
@@ -16,7 +16,7 @@ INSERT_KINDS = ("ListInsert", "DictInsert", "CallArg")
 
 from .C17 import clone_def
 
-from .C11 import cursor_sync, pair_len
+from .C11 import cursor_sync, key_routing, pair_len
 
 
 def check(repo: Repo, rep, tier):
@@ -28,7 +28,9 @@ def check(repo: Repo, rep, tier):
     clone_def(repo, rep)
     pair_len(repo, rep)
     cursor_sync(repo, rep)
+    key_routing(repo, rep)
     apply_exh(repo, rep)
+    apply_routing(repo, rep)
     ctx_restore(repo, rep)
 
 
